@@ -76,7 +76,7 @@ class QuadricTensor(ProjectiveTensor, ABC):
         if normalize_matrix is True:
             matrix = matrix.array if isinstance(matrix, Tensor) else np.asarray(matrix)
             w = np.abs(np.linalg.eigvalsh(matrix))
-            pseudo_det = np.prod(np.where(w > EQ_TOL_ABS, w, 1), axis=-1, keepdims=True)
+            pseudo_det = np.prod(np.where(w > EQ_TOL_ABS, w, 1), axis=-1)[..., None, None]
             matrix = matrix / (pseudo_det ** (1 / matrix.shape[-1]))
             kwargs["copy"] = False
 
